@@ -182,7 +182,9 @@ int main(int argc, char** argv)
         is >> kind >> a >> b >> hex;
         std::string input = unhex(hex);
         if (!fresh) {
+            alarm(20);   // a call that does not return (e.g. the parser is fed the same token for ever) ends the process: SIGALRM
             std::cout << runCall(kind, a, b, input) << "\n";
+            alarm(0);
             std::cout.flush();
             continue;
         }
@@ -193,6 +195,7 @@ int main(int argc, char** argv)
         pid_t pid = fork();
         if (pid == 0) {
             close(fds[0]);
+            alarm(20);
             std::string r = runCall(kind, a, b, input) + "\n";
             size_t off = 0;
             while (off < r.size()) {
